@@ -70,7 +70,7 @@ CHECKS['C03'] = ('exploration',
 CHECKS['C12'] = ('fault_enumeration',
    'OS-level fault injection in child processes (RLIMIT_FSIZE at enumerated byte offsets, /dev/full, create failures) with the Go runtime deadlock detector as logical hang oracle; goroutine census (pprof goroutine profile filtered on sdfx frames) at quiescence after each of K renders',
    'Each ToSTL/To3MF/ToDXF/ToSVG call runs on the main goroutine of a child with no timers; if the writer has gone and the renderer blocks on the channel the runtime reports "all goroutines are asleep - deadlock!", which (or a dump with the caller in chan send) is the violation; returned calls print a marker. Fault points: create (7 kinds incl. dangling symlink, symlink loop, path below a regular file, over-long name), /dev/full, size limits at header, first flush, every n-th flush (thorough: all multiples of 4096 +-1, every 7th byte below 400, 60 PRNG offsets), final flush/seek/rewrite. Census: sdfx goroutines after k=1..K renders must not grow after warm-up.',
-   'K=30 quick / 200 thorough renders per sink/renderer; a call that spins is ended by RLIMIT_CPU (40 s) and judged on the CPU it consumed; also scripted multi-part renders (Write, Close, Write ...), non-finite geometry, a child pinned to a single CPU (NumCPU() == 1), GOMAXPROCS changing between the renders of a census and successive renders to one file named through unclean paths (dir/./f, dir//f, dir/sub/../f); a wall-clock watchdog expiry is inconclusive, never a violation.',
+   'K=30 quick / 200 thorough renders per sink/renderer; a call that spins is ended by RLIMIT_CPU (40 s) and judged on the CPU it consumed; also scripted multi-part renders (Write, Close, Write ...), non-finite geometry, a child pinned to a single CPU (NumCPU() == 1), GOMAXPROCS changing between the renders of a census, an STL render into a FIFO whose reader (another process) pauses for 2 s mid-stream, and successive renders to one file named through unclean paths (dir/./f, dir//f, dir/sub/../f); a wall-clock watchdog expiry is inconclusive, never a violation.',
    'DESIGN.md 2/C12')
 
 
@@ -81,14 +81,14 @@ CHECKS['C10'] = ('exploration',
    'DESIGN.md 2/C10')
 CHECKS['C11'] = ('exploration',
    'exactly-once / order monitor over unambiguous histories: uniquely numbered items written by scripted multi-producer renderers are read back from every sink (slice, caller-owned channel, STL count+records, go3mf, dxf reader, SVG XML); race detector underneath',
-   'Scripted Render3/Render2 implementations drive ToTriangles/ToSTL/To3MF/ToDXF/ToSVG and the bare buffers with counts around the flush threshold, batch partitions incl. empty and straddling batches, 1..8 producer goroutines with PRNG yields and slow/fast consumers; each id must be delivered exactly once (sequence preserved for one producer) and file count fields must agree. Distinct interleaving fingerprints (producer sequence at the sink) are counted.',
+   'Scripted Render3/Render2 implementations drive ToTriangles/ToSTL/To3MF/ToDXF/ToSVG and the bare buffers with counts around the flush threshold, batch partitions incl. empty and straddling batches, 1..8 producer goroutines with PRNG yields and slow/fast consumers; each id must be delivered exactly once (sequence preserved for one producer) and file count fields must agree. Distinct interleaving fingerprints (producer sequence at the sink) are counted. The scripted renderers overwrite their batch slice as soon as Write returns (a renderer reusing its scratch slice).',
    'Ids are float32-exact so the history is unambiguous; multiset equality is what the statement demands for several producers (batch contiguity is not demanded).',
    'DESIGN.md 2/C11')
 
 
 CHECKS['C09'] = ('exploration',
    'run-vs-run digest comparison across child processes with varied GOMAXPROCS, perturbing Evaluate wrappers (Gosched/spin/sleep/starve), render histories and simultaneous renders; interleaving fingerprints of the observed evaluation order; Go race detector underneath',
-   'Each (model, renderer, cells, sink) is executed in many race-instrumented children under GOMAXPROCS 1..16, five perturbation policies injected on the harness side of the SDF interface, preceding histories of 0..6 renders and 2..6 simultaneous renders sharing the evaluation pool; triangle/segment sequences, STL/DXF/SVG bytes and decoded 3MF content must have one digest per spec. Race reports inside render/ or the buffer code fail the check. Includes a model whose surface grazes lattice nodes (slivers that collapse in float32) with the whole 3MF package digested.',
+   'Each (model, renderer, cells, sink) is executed in many race-instrumented children under GOMAXPROCS 1..16, five perturbation policies injected on the harness side of the SDF interface, preceding histories of 0..6 renders and 2..6 simultaneous renders sharing the evaluation pool; triangle/segment sequences, STL/DXF/SVG bytes and decoded 3MF content must have one digest per spec. Race reports inside render/ or the buffer code fail the check. Includes a model whose surface grazes lattice nodes (slivers that collapse in float32) with the whole 3MF package digested, and the same render in children restricted to 1, 3 and 5 CPUs (re-executed, so NumCPU differs).',
    'Models are constructed once per process in a fixed order before any render (text/Bezier construction draws from a process-wide seeded source; that is construction, not rendering). Schedule coverage is reported as distinct observed evaluation orders, not as a fraction of the schedule space.',
    'DESIGN.md 2/C09')
 CHECKS['C13'] = ('exploration',
